@@ -107,7 +107,9 @@ def _leaf(d):
                                  '10E+1', '100%', '1E+100', '1E100',
                                  '2.5E-300', '9.99999999999999E+307',
                                  '1e-100', '123456789012345', '0.000001',
-                                 '1E+007', '12345.678901234'])]
+                                 '1E+007', '12345.678901234', '.5', '5.',
+                                 '007', '.5e1', '5.E+1', '00.50', '.25%',
+                                 '1234567890123456789'])]
     if k < 9:
         return ['str', _string(d)]
     if k == 9:
